@@ -572,7 +572,7 @@ impl Prop for C16 {
     }
     fn explore(&self, ctx: &Ctx, findings: &Findings, ev: &mut Evidence) -> Result<(), String> {
         let q = ctx.tier == Tier::Quick;
-        let hs = histories(if q { 2 } else { 3 });
+        let hs = histories(if q { 3 } else { 4 });
         let base = Cfg::default_cfg();
         // (1) no-fault reopen for every history, measuring W(h)
         let r1 = par_map(&hs, ncpu(), |_, h| self.reopen(h, &base));
@@ -689,7 +689,7 @@ impl Prop for C16 {
         ev.set("compression_available", json!(comp_ok));
         ev.set("max_storage_ops_per_history", json!(ws.iter().max().cloned().unwrap_or(0)));
         ev.set("exhaustive", json!(true));
-        ev.set("rule", json!("histories: every sequence of length <= L (2 quick / 3 thorough) over {set(0,a), set(5,b), delete(0), append(a), write_range(2,[a,b]), batch(0,[b],{0}), batch(remove {0,2}), set_metadata, flush} on a persistent tree of depth 3; (1) each history + flush + drop + reopen must give root, leaves, leaf count and metadata of the ideal tree, and four further operations on the reopened tree must follow the ideal tree; a spread of histories under every storage configuration; (2) for each history the number W of storage operations is measured by a dry run and for every k < W the k-th operation is made to fail: the tree operation in progress must return Err, then flush, drop, reopen must show every acknowledged update outside the failed operation's targets; faults during creation; reopening while the previous instance still holds the storage lock for {0,3,25,120} ms; (3) crash points: a child process aborts at the k-th storage operation after an acknowledged flush and the parent checks what was flushed; distinct_nontrivial = distinct (history, k) fault positions + crash points"));
+        ev.set("rule", json!("histories: every sequence of length <= L (3 quick / 4 thorough) over {set(0,a), set(5,b), delete(0), append(a), write_range(2,[a,b]), batch(0,[b],{0}), batch(remove {0,2}), set_metadata, flush} on a persistent tree of depth 3; (1) each history + flush + drop + reopen must give root, leaves, leaf count and metadata of the ideal tree, and four further operations on the reopened tree must follow the ideal tree; a spread of histories under every storage configuration; (2) for each history the number W of storage operations is measured by a dry run and for every k < W the k-th operation is made to fail: the tree operation in progress must return Err, then flush, drop, reopen must show every acknowledged update outside the failed operation's targets; faults during creation; reopening while the previous instance still holds the storage lock for {0,3,25,120} ms; (3) crash points: a child process aborts at the k-th storage operation after an acknowledged flush and the parent checks what was flushed; distinct_nontrivial = distinct (history, k) fault positions + crash points"));
         if let Some((i, k)) = fitems.get(fitems.len() / 2) {
             ev.sample(case_json("fault", &hs[*i], &base, Some(*k)));
         }
